@@ -717,6 +717,22 @@ class PathResolver:
             return self.paths(iter_expr.elt, node)
         if isinstance(iter_expr, ast.Subscript) and isinstance(iter_expr.slice, ast.Slice):
             return self._iter_elem_paths(iter_expr.value, idx, node)
+        # a local list filled by appends: its elements are what was appended
+        if isinstance(iter_expr, ast.Name) and node is not None and not idx:
+            defs = self.cfg.reaching(node, iter_expr.id)
+            if defs and all(d.kind == 'stmt' and isinstance(d.ast, ast.Assign)
+                            and isinstance(d.ast.value, ast.List) and not d.ast.value.elts for d in defs):
+                out = []
+                for n in own_nodes(self.f.node):
+                    if isinstance(n, ast.Call) and isinstance(n.func, ast.Attribute) and n.args \
+                            and isinstance(n.func.value, ast.Name) and n.func.value.id == iter_expr.id:
+                        an = self.cfg.owner(n)
+                        if n.func.attr == 'append':
+                            out += self.paths(n.args[0], an)
+                        elif n.func.attr == 'extend':
+                            out += self._iter_elem_paths(n.args[0], (), an)
+                if out:
+                    return out
         out = []
         for b in self.paths(iter_expr, node):
             p = b.add(ELEM)
